@@ -118,6 +118,12 @@ func SexpToJson(exp Sexp) string {
 		if math.IsNaN(e.Val) || math.IsInf(e.Val, 0) {
 			return "null" // JSON has no NaN or infinities
 		}
+		// like encoding/json: exponent form for very small or very large
+		// magnitudes, so the token never has hundreds of digits (which
+		// the decoder's fast path mishandles)
+		if a := math.Abs(e.Val); a != 0 && (a < 1e-6 || a >= 1e21) {
+			return strconv.FormatFloat(e.Val, 'e', -1, 64)
+		}
 		fs := exp.SexpString(nil)
 		if !strings.ContainsAny(fs, ".eE") {
 			fs += ".0" // stay a float on the way back
